@@ -159,5 +159,103 @@ example : StoredOK (execOrder exSσ exSK) "out" (den exSG exSInp 1) :=
 
 example : (den exSG exSInp 1).get [] = .i 6 := by decide
 
+/-! ## non-vacuity, data-dependent bounds: a segmented sum `out[i] = sum_{p[i] <= r < p[i+1]} x[r]` -/
+
+def exCG : LGraph :=
+  #[.input "p" [3], .input "x" [3],
+    .indexLambda [2] (.reduce .sum "_r0" (.sub "_in0" [.idx 0]) (.sub "_in0" [.add (.idx 0) (.int 1)])
+        (.sub "_in1" [.var "_r0"])) [("_in0", 0), ("_in1", 1)]
+      .default .none ["_r0"] [⟨"_r0", "sum", false, false⟩]]
+/-- the row pointer 0, 1, 3 -/
+def exCP : Arr Val := ⟨[3], fun i => .i (match i.headD 0 with | 0 => 0 | 1 => 1 | _ => 3)⟩
+def exCX : Arr Val := ⟨[3], fun i => .i (10 * (i.headD 0) + 1)⟩
+def exCZ : Arr Val := ⟨[2], fun _ => .i 0⟩
+def exCInp : String → Arr Val := fun n => if n = "p" then exCP else exCX
+def exCσ : Store := [("p", exCP), ("x", exCX), ("_pt_temp", exCZ), ("out", exCZ)]
+
+def exCK : Kernel :=
+  [{ id := "_pt_temp_store", lhs := "_pt_temp", lhsIdx := [.var "_pt_temp_dim0"],
+     loops := [("_pt_temp_dim0", .int 0, .int 2)],
+     lets := [("_pt_sum_r0_lbound", .sub "p" [.var "_pt_temp_dim0"]),
+              ("_pt_sum_r0_ubound", .sub "p" [.add (.var "_pt_temp_dim0") (.int 1)])],
+     rhs := .reduce .sum "_pt_sum_r0" (.var "_pt_sum_r0_lbound") (hoistedHi "_pt_sum_r0_ubound")
+       (.sub "x" [.var "_pt_sum_r0"]), deps := [] },
+   { id := "out_store", lhs := "out", lhsIdx := [.var "out_dim0"], loops := [("out_dim0", .int 0, .int 2)], lets := [],
+     rhs := .sub "_pt_temp" [.var "out_dim0"], deps := ["_pt_temp_store"] }]
+
+theorem exCGen : generate exCG [("out", 2)] ["p", "x"] = .ok exCK := by rfl
+
+theorem exCG_out (i : Nat) : exCG.get (i + 3) = .other "out-of-range" := by
+  simp [LGraph.get, exCG]
+
+theorem exCHyp : Hyp exCG exCInp exCσ ["p", "x"] := by
+  refine ⟨wfG_sound (by decide), ?_, ?_⟩
+  · intro i name shape hn
+    match i with
+    | 0 => simp only [LGraph.get, exCG] at hn; cases hn; exact ⟨by simp, rfl, rfl⟩
+    | 1 => simp only [LGraph.get, exCG] at hn; cases hn; exact ⟨by simp, rfl, rfl⟩
+    | 2 => simp [LGraph.get, exCG] at hn
+    | i + 3 => rw [exCG_out] at hn; cases hn
+  · intro i shape e binds impl tag uo rvars hn j hj
+    match i with
+    | 0 => simp [LGraph.get, exCG] at hn
+    | 1 => simp [LGraph.get, exCG] at hn
+    | 2 =>
+      simp only [LGraph.get, exCG] at hn
+      cases hn
+      obtain ⟨k, hk, rfl⟩ : ∃ k, k < 2 ∧ j = [k] := by
+        match j, hj with
+        | [k], hj => exact ⟨k, by simpa [inB] using hj, rfl⟩
+        | [], hj => simp [inB] at hj
+        | _ :: _ :: _, hj => simp [inB] at hj
+      have hP : den exCG exCInp 0 = exCP := by rfl
+      have hX : den exCG exCInp 1 = exCX := by rfl
+      simp only [Safe, SafeList, true_and, and_true, List.map_cons, List.map_nil, hP, hX]
+      refine ⟨⟨exCP, [k], by rfl, by simp [evalList, eval, idxEnv, idxVals], by simp [exCP, inB]; omega⟩,
+        ⟨exCP, [k + 1], by rfl, by simp [evalList, eval, idxEnv, idxVals, Val.add, Val.arith, Val.toInt?], by
+          simp [exCP, inB]; omega⟩, ?_⟩
+      intro l h hl hh m hm
+      have hk2 : k = 0 ∨ k = 1 := by omega
+      rcases hk2 with rfl | rfl
+      · have e1 : l = 0 := by
+          have : (eval (idxEnv [0] [("_in0", exCP), ("_in1", exCX)]) (.sub "_in0" [.idx 0])).toInt? = some 0 := by decide
+          rw [this] at hl; exact (Option.some.inj hl).symm
+        have e2 : h = 1 := by
+          have : (eval (idxEnv [0] [("_in0", exCP), ("_in1", exCX)]) (.sub "_in0" [.add (.idx 0) (.int 1)])).toInt? = some 1 := by decide
+          rw [this] at hh; exact (Option.some.inj hh).symm
+        subst e1 e2
+        have hm0 : m = 0 := by simpa using hm
+        subst hm0
+        exact ⟨by simp [Env.bind, Env.lookupIx, idxEnv], exCX, [0], by rfl, by decide, by decide⟩
+      · have e1 : l = 1 := by
+          have : (eval (idxEnv [1] [("_in0", exCP), ("_in1", exCX)]) (.sub "_in0" [.idx 0])).toInt? = some 1 := by decide
+          rw [this] at hl; exact (Option.some.inj hl).symm
+        have e2 : h = 3 := by
+          have : (eval (idxEnv [1] [("_in0", exCP), ("_in1", exCX)]) (.sub "_in0" [.add (.idx 0) (.int 1)])).toInt? = some 3 := by decide
+          rw [this] at hh; exact (Option.some.inj hh).symm
+        subst e1 e2
+        have hm2 : m = 0 ∨ m = 1 := by
+          have : m < 2 := by simpa using hm
+          omega
+        rcases hm2 with rfl | rfl
+        · exact ⟨by simp [Env.bind, Env.lookupIx, idxEnv], exCX, [1], by rfl, by decide, by decide⟩
+        · exact ⟨by simp [Env.bind, Env.lookupIx, idxEnv], exCX, [2], by rfl, by decide, by decide⟩
+    | i + 3 => rw [exCG_out] at hn; cases hn
+
+example : StoredOK (execOrder exCσ exCK) "out" (den exCG exCInp 2) :=
+  loopygen_sound_red_partial exCG [("out", 2)] ["p", "x"] exCK exCInp exCσ exCGen
+    (fun o ho => (fragment_check_soundR (g := exCG) (by decide)).2 o.2 (by
+      simp only [List.mem_singleton] at ho; subst ho; decide))
+    exCHyp (by decide) (by decide)
+    (by
+      intro s hs _
+      simp only [exCK, List.mem_cons, List.not_mem_nil, or_false] at hs
+      rcases hs with rfl | rfl
+      · exact ⟨exCZ, rfl, rfl⟩
+      · exact ⟨exCZ, rfl, rfl⟩) ("out", 2) (by simp)
+
+-- the segments: x[0] = 1, and x[1] + x[2] = 11 + 21
+example : (den exCG exCInp 2).get [0] = .i 1 ∧ (den exCG exCInp 2).get [1] = .i 32 := by decide
+
 end LG
 end Pt
